@@ -100,3 +100,8 @@ Definition scheme_ok (rs os : list bytes) (got : bytes) : bool :=
   (if several_with_https rs then bytes_eqb got sch_https else true)
   && (match rs with [] => if several_with_https os then bytes_eqb got sch_https else true | _ => true end)
   && negb (bytes_eqb got []).
+
+(* the scheme is one that was offered for THIS request: a member of the transport's or of the
+   operation's list (the operation's alone when the transport has none), or the default http *)
+Definition scheme_offered (rs os : list bytes) (got : bytes) : bool :=
+  existsb (bytes_eqb got) (rs ++ os) || bytes_eqb got sch_http.
